@@ -513,10 +513,9 @@ func c10W4(c *mon.Ctx) {
 	n := directedCount(c)
 	tail := directedSmallTail(c)
 	stride := c.Pick(29, 7)
-	phase := int(uint64(c.Seed) % uint64(stride))
 	var objs []*mon.Obj
 	for k := 0; k < n; k++ {
-		if k%stride != phase && k < n-tail {
+		if k < n-tail && !directedSampled(c, k, stride) {
 			continue
 		}
 		if o, _ := directedCase(c, k); o != nil {
